@@ -31,6 +31,7 @@ theorem Preserves.frozenObj {m m' : Mem} (h : Preserves m m') {a : Addr}
     simp only [hm, Option.map_some] at ha ⊢
     cases ho : o.owner with
     | lib => simp
+    | libset => simp
     | bucket b =>
       simp only [ho] at ha ⊢
       have hb : Heap.frozenObj m b = true := by
@@ -39,7 +40,7 @@ theorem Preserves.frozenObj {m m' : Mem} (h : Preserves m m') {a : Addr}
         | none => simp [hmb] at ha
         | some ob =>
           simp only [hmb, Option.map_some] at ha ⊢
-          have : ob.owner = .lib := by simpa using ha
+          have : ob.owner = .libset := by simpa using ha
           simp [this]
       have eb := h.2 b hb
       rw [eb]; exact ha
@@ -55,18 +56,6 @@ theorem preserves_alloc (m : Mem) (o : Owner) (b : Body) : Preserves m (alloc m 
   refine ⟨by simp [alloc], fun a ha => ?_⟩
   have := frozenObj_lt ha
   simp [alloc, List.getElem?_append_left this]
-
-theorem frozenObj_of_get {m : Mem} {a : Addr} {o : Obj} (hm : m[a]? = some o)
-    (h : frozenObj m a = true) :
-    o.owner = .lib ∨ ∃ b, o.owner = .bucket b ∧ ownerOf m b = some .lib := by
-  unfold frozenObj ownerOf at h
-  simp only [hm, Option.map_some] at h
-  cases ho : o.owner with
-  | lib => exact .inl rfl
-  | bucket b => right; refine ⟨b, rfl, ?_⟩; simpa [ho, ownerOf] using h
-  | caller => simp [ho] at h
-  | helper => simp [ho] at h
-  | scratch => simp [ho] at h
 
 /-- an in-place write to an object that is not library-owned -/
 theorem preserves_setBody {m : Mem} {a : Addr} (b : Body) (h : frozenObj m a = false) :
@@ -138,7 +127,7 @@ theorem frozen_map {f : Nat} {m : Mem} {a : Addr} :
 
 theorem frozen_set {f : Nat} {m : Mem} {a : Addr} :
     frozen (f + 1) m (.set a) = true ↔
-      ∃ kvs, m[a]? = some ⟨.lib, .gomap kvs⟩ ∧
+      ∃ kvs, m[a]? = some ⟨.libset, .gomap kvs⟩ ∧
         (kvs.all fun kv => bucketOK (frozen f m) m a kv.2) = true := by
   simp only [frozen]
   cases hm : m[a]? with
@@ -161,14 +150,18 @@ theorem frozenObj_lib {m : Mem} {a : Addr} {b : Body} (h : m[a]? = some ⟨.lib,
     frozenObj m a = true := by
   simp [frozenObj, ownerOf, h]
 
-theorem frozenObj_bucket {m : Mem} {a x : Addr} {b bx : Body} (h : m[a]? = some ⟨.lib, b⟩)
+theorem frozenObj_libset {m : Mem} {a : Addr} {b : Body} (h : m[a]? = some ⟨.libset, b⟩) :
+    frozenObj m a = true := by
+  simp [frozenObj, ownerOf, h]
+
+theorem frozenObj_bucket {m : Mem} {a x : Addr} {b bx : Body} (h : m[a]? = some ⟨.libset, b⟩)
     (hx : m[x]? = some ⟨.bucket a, bx⟩) : frozenObj m x = true := by
   simp [frozenObj, ownerOf, h, hx]
 
 /-! ### frozen words stay frozen and keep their fingerprint -/
 
 theorem bucketOK_stable {p q : Word → Bool} {m m' : Mem} (h : Preserves m m') {a : Addr} {b : Body}
-    (ha : m[a]? = some ⟨.lib, b⟩) (hpq : ∀ w, p w = true → q w = true) {w : Word}
+    (ha : m[a]? = some ⟨.libset, b⟩) (hpq : ∀ w, p w = true → q w = true) {w : Word}
     (hw : bucketOK p m a w = true) : bucketOK q m' a w = true := by
   obtain ⟨arr, off, len, cap, cells, rfl, hm, hc⟩ := bucketOK_iff.mp hw
   refine bucketOK_iff.mpr ⟨arr, off, len, cap, cells, rfl, ?_, ?_⟩
@@ -201,7 +194,7 @@ theorem frozen_stable {m m' : Mem} (h : Preserves m m') :
       exact fun x hx => ih x.2 (hc x hx)
     | set a =>
       obtain ⟨kvs, hm, hc⟩ := frozen_set.mp hw
-      refine frozen_set.mpr ⟨kvs, by rw [h.2 a (frozenObj_lib hm), hm], ?_⟩
+      refine frozen_set.mpr ⟨kvs, by rw [h.2 a (frozenObj_libset hm), hm], ?_⟩
       rw [List.all_eq_true] at hc ⊢
       exact fun x hx => bucketOK_stable h hm ih (hc x hx)
     | marked ms r =>
@@ -228,7 +221,7 @@ theorem window_subset {cells : List Word} {off len : Nat} {x : Word}
 
 /-- a bucket of a library-owned set reads the same -/
 theorem fpSeq_bucket_stable {g g' : Word → List Tok} {p : Word → Bool} {m m' : Mem}
-    (h : Preserves m m') {a : Addr} {b : Body} (ha : m[a]? = some ⟨.lib, b⟩)
+    (h : Preserves m m') {a : Addr} {b : Body} (ha : m[a]? = some ⟨.libset, b⟩)
     (hg : ∀ w, p w = true → g' w = g w) {w : Word} (hw : bucketOK p m a w = true) :
     fpSeq g' m' w = fpSeq g m w := by
   obtain ⟨arr, off, len, cap, cells, rfl, hm, hc⟩ := bucketOK_iff.mp hw
@@ -271,7 +264,7 @@ theorem fp_stable {m m' : Mem} (h : Preserves m m') :
       exact congrArg _ (List.map_congr_left fun x hx => by rw [ih x.2 (hc x hx)])
     | set a =>
       obtain ⟨kvs, hm, hc⟩ := frozen_set.mp hw
-      have hm' : m'[a]? = some ⟨.lib, .gomap kvs⟩ := by rw [h.2 a (frozenObj_lib hm), hm]
+      have hm' : m'[a]? = some ⟨.libset, .gomap kvs⟩ := by rw [h.2 a (frozenObj_libset hm), hm]
       simp only [fp, kvsOf_eq hm, kvsOf_eq hm']
       congr 2
       rw [List.all_eq_true] at hc
